@@ -12,7 +12,7 @@ enum {
 	PR_BLOCKED = 8, PR_WAIT_TIMEOUT, PR_WAIT_CANCEL, PR_WAIT_WOKEN, PR_TRY_FAIL, PR_TRY_OK, PR_MUWAIT_SLEPT,
 	PR_COND_BY_OTHER, PR_NOTE_OBS_TRUE, PR_NOTE_FREED, PR_CTR_ZERO_WAITERS, PR_ONCE_LOSER_WAITED, PR_WAITN_HEAP,
 	PR_WAITN_WOKEN, PR_SEM_FAULT, PR_UNREF_SLOW, PR_DEBUG_CONTENDED, PR_BARGE_LONGWAIT, PR_ALLOC_FAILED, PR_GRID_NEG,
-	PR_CV_SIGNAL_VS_TIMEOUT, PR_READER_SHARED, PR_NPROBES
+	PR_CV_SIGNAL_VS_TIMEOUT, PR_READER_SHARED, PR_QUIESCE_JUDGED, PR_NPROBES
 };
 const char *nsim_probe_names[] = {
 	"dead_access", "rt1", "rt2", "rt3", "rt4", "rt5", "rt6", "rt7",
@@ -20,7 +20,7 @@ const char *nsim_probe_names[] = {
 	"mu_wait_slept", "condition_evaluated_by_other_thread", "note_observed_notified", "note_freed",
 	"counter_zero_with_waiters", "once_loser_waited", "wait_n_heap_array", "wait_n_woken_by_object", "sem_fault_injected",
 	"unref_slow_unlock", "debug_call_contended", "barge_victim_long_wait", "alloc_failed", "grid_negative_deadline",
-	"signal_raced_timeout", "readers_shared"
+	"signal_raced_timeout", "readers_shared", "thread_judged_at_rest"
 };
 const int nsim_nprobes = PR_NPROBES;
 
@@ -69,6 +69,13 @@ typedef struct { int writer; int readers; int rd[NSIM_MAXSLOTS]; } hshadow_t;
 static hshadow_t HS[MAXMU];
 static int m_var[MAXVAR];
 static int my_thread[NSIM_MAXSLOTS];    /* scenario thread index of each fibre */
+/* stamps for the quiescence oracles: a waiter stamps while it still holds the mutex, just before its cv wait; a broadcaster
+   stamps when it has acquired the write section inside which it broadcasts.  Both hold the mutex at their stamp, so the order
+   of the stamps is the order of the sections: a broadcast section stamped after a waiter's stamp ran after that waiter had
+   released the mutex inside its wait, i.e. after it was registered on the cv */
+static int64_t qstep;
+static struct { int active, ci; int64_t rel; } CW[MAXT];
+static int64_t cv_bcast_acq[MAXCV];
 static int thread_tid[MAXT];          /* fibre id of each scenario thread, -1 if not started */
 static int thread_done[MAXT];
 static int thread_op[MAXT];           /* index of the op being executed */
@@ -356,6 +363,7 @@ static int do_cv_wait (int mi, int ci, int writer, int style, int dlcode, int ni
 	nsync_cv *cv = W.cv[ci];
 	if (style == 0) ni = -1;
 	if (ni >= 0) { wait_created (ni); note = W.note[ni]; }
+	{ int me = my_thread[nsim_self ()]; if (me >= 0 && me < MAXT) { CW[me].ci = ci; CW[me].rel = ++qstep; CW[me].active = 1; } }
 	h_releasing (mi, writer);
 	switch (style) {
 	case 0:
@@ -393,6 +401,7 @@ static int do_cv_wait (int mi, int ci, int writer, int style, int dlcode, int ni
 	}
 	if (nsim_op_sleeps () > 0) nsim_probe (PR_BLOCKED);
 	nsim_op_end ();
+	{ int me = my_thread[nsim_self ()]; if (me >= 0 && me < MAXT) CW[me].active = 0; }
 	h_acquired (mi, writer);
 	check_wait_return ("cv wait", mi, writer, r, dl_ns, ni);
 	return r;
@@ -424,9 +433,11 @@ static void do_signal (int ci, int bcast) {
 static void op_signal (op_t *o) {
 	int ci = o->a[0], bcast = o->a[1], mi = o->a[2], v = o->a[3], delta = o->a[4], where = o->a[5];
 	if (mi >= 0) {
+		int64_t acq;
 		do_acquire (mi, 0);
+		acq = ++qstep;
 		if (delta != 0) var_add (v, delta, 0);
-		if (where != 1) do_signal (ci, bcast);
+		if (where != 1) { do_signal (ci, bcast); if (bcast) cv_bcast_acq[ci] = acq; }
 		do_release (mi, 1, 0);
 		if (where != 0) do_signal (ci, bcast);
 	} else {
@@ -916,7 +927,8 @@ static void world_init (void) {
 	memset (nCH, 0, sizeof nCH);
 	memset (cv_signals_invoked, 0, sizeof cv_signals_invoked);
 	memset (cv_signals_returned, 0, sizeof cv_signals_returned);
-	hstep = 0; held_checks = 0;
+	hstep = 0; held_checks = 0; qstep = 0;
+	memset (CW, 0, sizeof CW); memset (cv_bcast_acq, 0, sizeof cv_bcast_acq);
 	harness_state_reset ();
 	last_alloc_failed = 0;
 	for (i = 0; i < MAXMU; i++) HS[i].writer = -1;
@@ -989,6 +1001,52 @@ static void generic_controller (void *arg) {
 		if (thread_tid[t] < 0) nsim_wait_until (&spawned_or_dead_pred, (void *) (intptr_t) t);
 		if (thread_tid[t] >= 0) nsim_join (thread_tid[t]);
 	}
+}
+
+/* MU-MIX, staged variant (S.p[5]): the finisher (a writer that changes every variable and broadcasts on every cv, which would
+   rescue any thread that lost a wake-up) is started only after everything else has come to rest, and the state at rest is
+   judged first:
+     - a thread asleep inside nsync_mu_lock / nsync_mu_rlock while no mutex is held by anybody has lost a lock wake-up (C02);
+     - a thread asleep in nsync_mu_wait whose condition is true, the mutex free: every change in this family ends with
+       nsync_mu_unlock (unlock_without_wakeup only after sections that change nothing), so it has lost a wake-up (C06);
+     - a thread asleep in a cv wait although a broadcast was issued inside a write section that began after that thread was
+       registered (stamp argument above) was missed by the broadcast (C04).
+   Threads with timers are never at rest, so only untimed waits are judged. */
+static void quiescence_oracles (int finisher) {
+	int i, t;
+	for (i = 0; i < S.nmu; i++) if (nsim_model_writer (W.mu[i]) >= 0 || nsim_model_readers (W.mu[i]) > 0) return;
+	for (t = 0; t < S.nthreads; t++) {
+		int tid = thread_tid[t], st;
+		const char *opn;
+		op_t *o;
+		if (t == finisher || tid < 0 || thread_done[t] || thread_op[t] >= S.nops[t]) continue;
+		st = nsim_fibre_state (tid);
+		if (st != 2 && st != 4) continue;
+		opn = nsim_fibre_op (tid);
+		o = &S.ops[t][thread_op[t]];
+		nsim_probe (PR_QUIESCE_JUDGED);
+		if (strcmp (opn, "nsync_mu_lock") == 0 || strcmp (opn, "nsync_mu_rlock") == 0) {
+			VIOL ("C02", "asleep-on-free-mutex", "at rest thread %d is asleep in %s although no mutex is held and nobody is running", t, opn);
+		} else if (o->kind == OP_MU_WAIT && strncmp (opn, "nsync_mu_wait", 13) == 0) {
+			int ck = o->a[2], v = o->a[3], k = o->a[4];
+			int truth = (ck == 3) || (ck == 4 ? (*W.var[v] <= k) : (*W.var[v] >= k));
+			if (truth) VIOL ("C06", "true-condition-asleep", "at rest thread %d is asleep in %s although its condition (var%d %s %d, var=%d) is true, "
+					 "the mutex is free and every change ended with nsync_mu_unlock", t, opn, v, ck == 4 ? "<=" : ">=", k, *W.var[v]);
+		} else if (CW[t].active && cv_bcast_acq[CW[t].ci] > CW[t].rel) {
+			VIOL ("C04", "broadcast-missed-waiter", "at rest thread %d is asleep in %s on cv%d although a broadcast was issued inside a write section "
+			      "that began after the thread had released the mutex in that wait", t, opn, CW[t].ci);
+		}
+	}
+}
+static void mumix_controller (void *arg) {
+	int t, f = S.p[7];
+	if (!(S.family == FAM_MUMIX && S.p[5] && f >= 0 && f < S.nthreads)) { generic_controller (arg); return; }
+	world_init ();
+	for (t = 0; t < S.nthreads; t++) if (t != f && S.start[t] == 0) thread_tid[t] = nsim_spawn (&thread_body, (void *) (intptr_t) t);
+	nsim_quiesce ();
+	if (nsim_quiesced_ok ()) quiescence_oracles (f);
+	thread_tid[f] = nsim_spawn (&thread_body, (void *) (intptr_t) f);
+	for (t = 0; t < S.nthreads; t++) if (thread_tid[t] >= 0) nsim_join (thread_tid[t]);
 }
 
 #include "ops2.inc"
